@@ -1047,6 +1047,10 @@ def vf4(ctx, c):
                 c.finding("get_coco_files:by-name", "a reader is tried or skipped on the file's name (%s)" % texts[-1][:50],
                           "get_coco_files tries a reader under `%s` (%s): the kind of an existing file is then decided by what it is called; an image whose name says otherwise is handed "
                           "to the permissive cassette reader, sniffs as an empty cassette, and --append replaces it" % (U(n.test)[:50], texts[-1][:70]), repo.loc(gc, n))
+            elif any(re.search(r"len\(.*(buffer|get_buffer\(\))|getsize|st_size", t_) for t_ in texts):
+                c.finding("get_coco_files:by-size", "a reader is tried or skipped on the size of the target (%s)" % texts[-1][:50],
+                          "get_coco_files tries a reader under `%s`: an image is the kind its content says, whatever its size - a tape as long as a disk image (or a disk image with "
+                          "bytes appended) skips the reader that would recognise it, sniffs as another kind, and is then overwritten" % U(n.test)[:60], repo.loc(gc, n))
             else:
                 c.undecided("get_coco_files:by-name", "a reader is tried under a condition", U(n.test)[:80], repo.loc(gc, n))
     for n in sorted([x for x in ast.walk(gc.node) if isinstance(x, ast.Try)], key=lambda x: (x.lineno, x.col_offset)):
